@@ -1429,7 +1429,7 @@ def correspond(ctx):
                     'jaxopt.ProjectedGradient: MODELLED as a parameter (`solver a b`); the push-only theorem assumes it returns x >= 0 '
                     '(min x measured on every run: extra.correspondence.solver_min_x); force_zero_of_inactive assumes nothing about it',
                     'mjx.collision / contact.get: contacts are DATA for the models (C10 ties contact.get)',
-                    'scan.tree (reverse) of point_jacobian and scan.link_types: Layer B stage 2 proves the grouped code equal to the recursion/slicing for the additive carry functions; point_jacobian's reverse scan is tied by the C01/C06 correspondences',
+                    'scan.tree (reverse) of point_jacobian and scan.link_types: Layer B stage 2 proves the grouped code equal to the recursion/slicing for the additive carry functions; the reverse scan of point_jacobian is tied by the C01/C06 correspondences',
                     'whole-step models Spring.step / Positional.step are tied by C04\'s correspondence; C06 ties every function its theorems mention '
                     'and observes whole steps of the real pipelines directly (twin models)',
                     'generalized dynamics (mass matrix, qf_smooth) is C02\'s; here mass_mx_inv and qf_smooth are inputs of `force`'],
